@@ -14,6 +14,22 @@ for tc in ET.parse(out).getroot().iter('testcase'):
         passed.add('%s::%s' % (tc.get('classname'), tc.get('name')))
 os.remove(out)
 missing = [t for t in base['stable_pass'] if t not in passed]
+if missing and len(missing) <= 25:
+    # the sandbox is shared with other heavy jobs: re-run apparent failures once, serially
+    ids = []
+    for t in missing:
+        cls, name = t.split('::')
+        parts = cls.split('.')
+        ids.append('/'.join(parts[:-1]) + '.py::' + parts[-1] + '::' + name)
+    out2 = tempfile.mktemp(suffix='.xml')
+    subprocess.run(['/venv/bin/python', '-m', 'pytest', '-q', '-p', 'no:cacheprovider', '--timeout=900', '--junitxml=' + out2] + ids,
+                   cwd=repo, env=env, stdout=subprocess.DEVNULL, stderr=subprocess.DEVNULL)
+    for tc in ET.parse(out2).getroot().iter('testcase'):
+        if not any(ch.tag in ('failure', 'error', 'skipped') for ch in tc):
+            passed.add('%s::%s' % (tc.get('classname'), tc.get('name')))
+    os.remove(out2)
+    print('re-ran %d apparent failures serially' % len(missing))
+    missing = [t for t in base['stable_pass'] if t not in passed]
 print('baseline stable_pass=%d passing_now=%d missing=%d total_passed=%d' % (len(base['stable_pass']), len(base['stable_pass']) - len(missing), len(missing), len(passed)))
 for m in missing:
     print('MISSING', m)
